@@ -480,6 +480,54 @@ def _const_value(e):
     return None
 
 
+def _private_inlined(b, pure=False):
+    """codec function with the private helpers of its module (non-public free / inherent functions) spliced in
+    (pure: only helpers that compute a value and write nothing themselves)"""
+    return mirlib.inline_calls(b, lambda cs, callee: callee.vis != 'Public' and callee.crate == 'pilota' and (callee.key.startswith('thrift::') or callee.key.startswith('<thrift::')) and not callee.impl_trait
+                               and not (pure and any(c.name.startswith('write_') for c in callee.calls())))
+
+
+def _value_cases(b, prog, l, depth=0):
+    """the constant values a local can hold, each with the block that decides it: [(block, int)], or None when some
+    definition is not a constant (literals, casts, `Enum::Variant as uN`, chosen in branches)"""
+    dd, _ = b.defs
+    ds = dd.get(l, [])
+    if not ds or depth > 6:
+        return None
+    out = []
+    for bi, si, kind, r in ds:
+        if kind != 'assign':
+            return None
+        k = r['k']
+        v = _const_value(b.expr_rvalue(r))
+        if v is not None:
+            out.append((bi, v))
+            continue
+        if k in ('use', 'cast'):
+            o = r['o']
+            pl = o.get('mv') or o.get('cp')
+        elif k == 'discr':
+            pl = r['p']
+        elif k == 'agg' and not r['ops']:
+            path = mirlib.canon(r['kind'], b.crate)
+            path = path[4:] if path.startswith('Adt:') else path
+            enum, _, var = path.rpartition('::')
+            vs = [d for e, lst in prog.enums.items() if e == enum or e.endswith('::' + enum) or enum.endswith('::' + e) for v, d in lst if v == var]
+            if len(vs) != 1:
+                return None
+            out.append((bi, vs[0]))
+            continue
+        else:
+            return None
+        if pl is None or pl['p']:
+            return None
+        sub = _value_cases(b, prog, pl['l'], depth + 1)
+        if sub is None:
+            return None
+        out.extend(sub)
+    return out
+
+
 def compact_bool_element(rep, rule, prog, cg):
     """a bool that is not carried by a field header (a list/set/map element) is one byte: 1 = true, 2 = false, in both
     writers; both readers map 1 -> true and 2 -> false"""
@@ -490,6 +538,7 @@ def compact_bool_element(rep, rule, prog, cg):
         if b is None:
             rep.anchor_missing(rule, 'compact %s write_bool' % label)
             continue
+        b = _private_inlined(b, pure=True)
         got = {}
         unknown = []
         for cs in b.calls():
@@ -497,14 +546,12 @@ def compact_bool_element(rep, rule, prog, cg):
                 continue
             op = cs.t['args'][1]
             pl = op.get('mv') or op.get('cp')
-            defs = []
+            defs = None
             if pl is not None and not pl['p']:
-                dd, _ = b.defs
-                defs = [(bi, b.expr_rvalue(payload)) for bi, si, kind, payload in dd.get(pl['l'], []) if kind == 'assign']
-            if not defs:
-                defs = [(cs.bb, cs.arg(1))]
-            for bi, e in defs:
-                v = _const_value(e)
+                defs = _value_cases(b, prog, pl['l'])
+            if defs is None:
+                defs = [(cs.bb, _const_value(cs.arg(1)))]
+            for bi, v in defs:
                 truth = None
                 for cond, val, sbb, tb in b.edge_guards(bi):
                     c = cond
@@ -513,7 +560,7 @@ def compact_bool_element(rep, rule, prog, cg):
                     if c[0] == 'arg' and c[1] == 2:      # write_bool(&mut self, b: bool)
                         truth = (val != 0) if isinstance(val, int) else (val == ('not', [0]))
                 if v is None or truth is None:
-                    unknown.append(show(e))
+                    unknown.append(show(cs.arg(1)))
                 else:
                     got[truth] = v
         if got == {True: 1, False: 2} and not unknown:
@@ -526,7 +573,7 @@ def compact_bool_element(rep, rule, prog, cg):
         if r is None:
             rep.anchor_missing(rule, 'compact %s read_bool' % label)
             continue
-        r = codec.effective_body(r, cg)
+        r = _private_inlined(codec.effective_body(r, cg))
         arms = None
         for bi, bb in enumerate(r.bbs):
             t = bb['t']
